@@ -73,6 +73,8 @@ func runC07(c *Ctx) {
 	c.Rule("C07.O8", "E9", "the transition relation read off Parse contains the grammar's transitions for empty elements of well-formed messages: empty reason phrase, empty header value, empty trailer value, no body, no trailers", 1)
 	c.Rule("C07.O6", "E7", "both trailer value states check the delivered name off the declared set before OnTrailerHeader", 1)
 	c.Rule("C07.O7", "E4", "message-boundary hygiene: the framing decision (parseTransferEncoding, parseContentLength, parseTrailer, in this order) dominates every entry into the end-of-head state; parseContentLength assigns the length on every successful path; handleMessage resets chunked, header and trailer", 3)
+	c.Rule("C07.O9", "E4", "token accumulators (proto, status, headerKey, headerValue) are cleared after they were delivered and before the next state is entered: they are filled only while empty, so a value left behind would be delivered again for the next message", 6)
+	c.Rule("C07.O10", "E5", "strings handed to the processor are copies: Parse makes no unsafe conversion of the read buffer (the buffer is reused for the next read while handlers still hold the strings)", 1)
 	c.Rule("C07.O4", "E8", "request.Close: major<1 -> true; 1.0 -> hasClose || !keepAlive; else hasClose, with hasClose / keepAlive set by the Connection values \"close\" / \"keep-alive\"", 1)
 
 	// ------------------------------------------------------------------ O1
@@ -386,6 +388,59 @@ func runC07(c *Ctx) {
 		}
 		c.Cond(len(missing) == 0, "C07.O8", fnKey(c.P, parse, "empty elements of well-formed messages"), c.FnPos(parse), "5 required transitions present",
 			fmt.Sprintf("Parse has no transition %v: a well-formed message with that element empty (which net/http accepts) is not framed the way net/http frames it", missing))
+	}
+	if parse := c.Fn("C07.O9", "(*nbhttp.Parser).Parse"); parse != nil {
+		fi := c.P.Info(parse)
+		acc := map[string]bool{"nbhttp.Parser.proto": true, "nbhttp.Parser.status": true, "nbhttp.Parser.headerKey": true, "nbhttp.Parser.headerValue": true}
+		n := 0
+		for _, cs := range c.P.Calls(parse, func(name string, _ ir.CallSite) bool { return strings.HasPrefix(name, "invoke:nbhttp.Processor.On") }) {
+			if cs.In.Parent() != parse {
+				continue
+			}
+			for _, a := range cs.Common.Args {
+				f := c.P.LoadedField(ir.Resolve(a))
+				if !acc[f] {
+					continue
+				}
+				n++
+				key := fmt.Sprintf("%s: %s after %s#%d", c.P.FuncName(parse), f, strings.TrimPrefix(c.P.CalleeName(cs.Common), "invoke:nbhttp.Processor."), n)
+				isClear := func(in ssa.Instruction) bool {
+					st, ok := in.(*ssa.Store)
+					if !ok {
+						return false
+					}
+					fa, ok := st.Addr.(*ssa.FieldAddr)
+					if !ok || c.P.FieldKey(fa) != f {
+						return false
+					}
+					k, isK := st.Val.(*ssa.Const)
+					return isK && k.Value != nil && k.Value.String() == `""`
+				}
+				vis, _ := fi.Reach([]ssa.Instruction{cs.In}, isClear)
+				bad := ""
+				for in := range vis {
+					if c.isCallTo(in, "(*nbhttp.Parser).nextState", "(*nbhttp.Parser).handleMessage") {
+						bad = f + " is delivered at " + c.Pos(cs.In) + " and the next state is entered at " + c.Pos(in) + " without clearing it: the accumulator is filled only while empty, so the next message on the connection is delivered with this message's value"
+					}
+				}
+				c.Cond(bad == "", "C07.O9", key, c.Pos(cs.In), "cleared before the next state", bad)
+			}
+		}
+		if n == 0 {
+			c.Unres("C07.O9", "accumulator deliveries", "none found")
+		}
+		// O10: no unsafe conversions in Parse's own body
+		bad := ""
+		for _, b := range parse.Blocks {
+			for _, in := range b.Instrs {
+				if cv, ok := in.(*ssa.Convert); ok {
+					if cv.Type().String() == "unsafe.Pointer" || cv.X.Type().String() == "unsafe.Pointer" {
+						bad = "Parse converts through unsafe.Pointer at " + c.Pos(in) + ": a zero-copy view of the read buffer handed to the processor changes under the handler when the buffer is reused for the next read"
+					}
+				}
+			}
+		}
+		c.Cond(bad == "", "C07.O10", fnKey(c.P, parse, "no zero-copy strings"), c.FnPos(parse), "no unsafe conversion in the parse loop", bad)
 	}
 }
 
